@@ -108,6 +108,7 @@ pub fn c10(ctx: &mut Ctx) {
         }
     }
     let sdes_bases: Vec<Vec<u8>> = gens::base_set().iter().filter(|p| matches!(p, Pkt::Sdes { .. })).map(wire::encode).collect();
+    spaces.push(bytes::sdes_utf8_split_space());
     spaces.push(bytes::dev1_space(sdes_bases.clone()));
     spaces.push(bytes::trunc_ext_space(sdes_bases.clone()));
     match ctx.tier {
